@@ -151,6 +151,13 @@ def evaluate(ck, recs):
         if code == 0:
             continue
         ix, c = code // 4, code % 4
+        if ix >= len(p["ops"]):
+            ck.failures.append(dict(kind="input", key="c06:mhc:spec", spec_violated=True,
+                                    case={"scenario": p["id"], "phase": p.get("phase", 0), "mhc": p["mhc"], "chain_ac": [h["ac"] for h in p["chain"]][-12:]},
+                                    what="maxHeightCertified in the node's store (%d) is not the largest aggregate-commit height carried by the chain's headers "
+                                         "(scenario %d phase %d)" % (p["mhc"], p["id"], p.get("phase", 0)),
+                                    theorem_or_correspondence="Corr.C06.check_scenario (e_mhc cross-check)"))
+            continue
         o = p["ops"][ix]
         spec_bad = c >= 2
         names = {"v": "verifyAggregateCommit", "s": "singleCommitValidator", "c": "Certify", "g": "GetAggregateCommit->verifyAggregateCommit",
